@@ -95,7 +95,12 @@ def check(ctx, args):
             n_pairs += 1
             if v == "0":
                 n_valid += 1
-            if o == "ok" and v != "0":
+            if o == "ok_wildcard" and v != "0":
+                # the validator sees what the call-graph comparison cannot: the wildcard now binds
+                # another same-named value (recorded family)
+                ctx.fail(heads[i][2] + "_wildcard", "%s: compiles, but the Coq validator rejects the result (verdict %s): a wildcard binding now supplies a different parameter" % (describe(i), v),
+                         replay(i, "validator verdict %s" % v))
+            elif o.startswith("ok") and v != "0":
                 mism.append((i, "oracle accepts, validator verdict %s" % v))
             elif o.startswith("FAIL") and v == "0" and "_callgraph" not in o:
                 # the validator does not see type-directed reference resolution;
@@ -105,7 +110,7 @@ def check(ctx, args):
                    ok_len and not mism and n_valid > 200,
                    "; ".join("%s: %s" % (describe(i), w) for i, w in mism[:6]))
         for i, w in mism[:20]:
-            if oracle_lines[i] == "ok":
+            if oracle_lines[i].startswith("ok"):
                 ctx.fail("validator_rejects_%s" % heads[i][2], "%s: %s" % (describe(i), w), replay(i, w))
         # kernel sample
         nk = 24 if ctx.tier != "thorough" else 80
@@ -121,7 +126,7 @@ def check(ctx, args):
     for i, o in enumerate(oracle_lines):
         if heads[i][0] == "P":
             continue
-        if o == "ok":
+        if o.startswith("ok"):
             n_ok += 1
         elif o == "skip":
             n_skip += 1
